@@ -1,5 +1,7 @@
 #!/bin/sh
-# usage: tools/allharmless.sh [jobs]  — runs every behaviour-preserving edit on its own scratch copy (tools/harmlessscratch.sh); prints one line each
+# usage: tools/allharmless.sh [jobs]  — runs every behaviour-preserving edit on its own scratch copy (tools/harmlessscratch.sh);
+# prints one line each and keeps the full output in ${HARMLESSLOGS:-/tmp/harmlesslogs}/<id>.log
 cd /verif || exit 2
 J="${1:-3}"
-ls -d harmless/C*-* | xargs -n1 basename | xargs -P "$J" -I{} sh -c 'tools/harmlessscratch.sh {} 2>&1 | head -1'
+OUT="${HARMLESSLOGS:-/tmp/harmlesslogs}"; mkdir -p "$OUT"; export OUT
+ls -d harmless/C*-* | xargs -n1 basename | xargs -P "$J" -I{} sh -c 'tools/harmlessscratch.sh {} > "$OUT/{}.log" 2>&1; head -1 "$OUT/{}.log"'
